@@ -23,6 +23,10 @@ pub const DEF: PropDef = PropDef {
 pub struct Case {
     pub chain: ChainSpec,
     pub layouts: Vec<LayoutSpec>,
+    /// the first block of every blk file is stored without the magic bytes in front of its length prefix (data offset
+    /// 4, or lead + 4): the record's offset and the four bytes before it are all that locates a block
+    #[serde(default)]
+    pub bare_first: bool,
     /// RLIMIT_NOFILE of every run of the case (files that no record names must not cost descriptors)
     #[serde(default)]
     pub nofile: Option<u64>,
@@ -40,7 +44,7 @@ pub fn chain_cfg(tier: Tier) -> gen::ChainCfg {
 }
 
 pub fn strategy(tier: Tier, big_holes: bool) -> BS<Case> {
-    (gen::chain(&chain_cfg(tier)), proptest::collection::vec(layout::layout(tier, false, big_holes), 1..=2)).prop_map(|(chain, layouts)| Case { chain, layouts, nofile: None }).boxed()
+    (gen::chain(&chain_cfg(tier)), proptest::collection::vec(layout::layout(tier, false, big_holes), 1..=2)).prop_map(|(chain, layouts)| { let bare_first = chain.blocks.len() % 10 == 3; Case { chain, layouts, nofile: None, bare_first } }).boxed()
 }
 
 pub fn check(c: &Case) -> Verdict {
@@ -66,6 +70,15 @@ pub fn check(c: &Case) -> Verdict {
     let mut classes = vec![];
     for (k, l) in c.layouts.iter().enumerate() {
         let mut plan = l.to_plan(&built);
+        if c.bare_first {
+            for f in plan.files.iter_mut() {
+                if let Some(pos) = f.segs.iter().position(|sg| matches!(sg, vpmodel::datadir::Seg::Blk { .. })) {
+                    if let vpmodel::datadir::Seg::Blk { bytes, rec, .. } = f.segs[pos].clone() {
+                        f.segs[pos] = vpmodel::datadir::Seg::BlkBare { bytes, rec };
+                    }
+                }
+            }
+        }
         let w = infra!(World::create("c03", &mut plan));
         let out = infra!(w.run(&o));
         if let Some(v) = timed_out_is_infra(&out) {
@@ -181,6 +194,7 @@ fn boundary_cases() -> Vec<Case> {
         chain: vpmodel::spec::chain_from_scripts(vpmodel::chain::Coin::Bitcoin, &scripts, &[5_000], 1, 1, base, 1_500_000_000),
         layouts: vec![LayoutSpec { files: vec![layout::FileSlot { number, pad: 5 }], lead: vec![lead], ..LayoutSpec::canonical() }],
         nofile: None,
+        bare_first: false,
     };
     let mut v = Vec::new();
     for b in varint_boundaries() {
@@ -198,6 +212,12 @@ fn boundary_cases() -> Vec<Case> {
 }
 
 fn run(eng: &Engine, a: &Args) {
+    let mut bare = boundary_cases();
+    bare.truncate(6);
+    for c in bare.iter_mut() {
+        c.bare_first = true;
+    }
+    eng.enumerate("first-block-without-magic", bare, check);
     eng.enumerate("varint-width-boundaries", boundary_cases(), check);
     let tier0 = a.tier;
     eng.explore("index-with-a-hole", scaled(if a.tier == Tier::Quick { 60 } else { 800 }, a), move || (gen::chain(&chain_cfg(tier0)), any::<u16>(), layout::layout(tier0, false, false)).prop_map(|(chain, gap, layout)| GapCase { chain, gap, layout }).boxed(), check_gap);
@@ -208,7 +228,7 @@ fn run(eng: &Engine, a: &Args) {
     let mut crowded = LayoutSpec { files: vec![layout::FileSlot { number: 0, pad: 5 }, layout::FileSlot { number: 1, pad: 5 }], assign: vec![0, 40_000], ..LayoutSpec::canonical() };
     crowded.extras.unreferenced_many = 700;
     crowded.extras.rev_files = true;
-    eng.enumerate("many-unreferenced-blk-files", vec![Case { chain, layouts: vec![crowded], nofile: Some(64) }], check);
+    eng.enumerate("many-unreferenced-blk-files", vec![Case { chain, layouts: vec![crowded], nofile: Some(64), bare_first: false }], check);
     // layouts without multi-GiB holes first: a wrong seek then fails fast instead of reading a hole
     let (n1, n2) = if a.tier == Tier::Quick { (200, 100) } else { (2700, 1300) };
     let tier = a.tier;
@@ -218,7 +238,7 @@ fn run(eng: &Engine, a: &Args) {
 
 fn replay(part: &str, case: serde_json::Value) -> Option<Verdict> {
     match part {
-        "layout-vs-canonical" | "layout-vs-canonical-4GiB" | "varint-width-boundaries" | "many-unreferenced-blk-files" => Some(check(&serde_json::from_value(case).ok()?)),
+        "layout-vs-canonical" | "layout-vs-canonical-4GiB" | "varint-width-boundaries" | "many-unreferenced-blk-files" | "first-block-without-magic" => Some(check(&serde_json::from_value(case).ok()?)),
         "index-with-a-hole" => Some(check_gap(&serde_json::from_value(case).ok()?)),
         _ => None,
     }
